@@ -36,13 +36,13 @@ def corpus(seed, tier):
         for l in lines:
             cid, _, p, lim = l.split('|')
             out.append((tag + cid, p, int(lim)))
-    nm = 1200 if tier == 'quick' else 17000
+    nm = 1200 if tier == 'quick' else 6000
     strip(pdiff.cases_mutant(seed + 20260930, nm), 'm')
     dist['mutants_of_rule_applying_machines'] = nm
-    nt = 400 if tier == 'quick' else 6000
+    nt = 400 if tier == 'quick' else 3000
     strip(pdiff.cases_tree(seed + 20260930, nt), 't')
     dist['tree_like'] = nt
-    nr = 800 if tier == 'quick' else 20000
+    nr = 800 if tier == 'quick' else 8000
     strip(pdiff.cases_random(seed + 20260930, nr), 'r')
     dist['random'] = nr
     # "transfer with look-ahead" machines: rules that stop being true near the end of a block (F14 family), sensitive to
@@ -57,7 +57,7 @@ def corpus(seed, tier):
     dist['eraser_compositions'] = len(ers)
     # leaves of the real tree generator (3x2 .. 2x4, both trees): short closed orbits, near-arithmetic count sequences
     # (after seeded change C03-m1: three of four snapshot counts in arithmetic progression)
-    lv = gen.tree_leaves(rng, 1500 if tier == 'quick' else 12000)
+    lv = gen.tree_leaves(rng, 1500 if tier == 'quick' else 6000)
     for i, p in enumerate(lv):
         out.append((f'v{i}', p, 300 if i % 2 else 100))
     dist['tree_leaves'] = len(lv)
